@@ -250,6 +250,14 @@ def p45_paths_and_compare(binfns, consts):
                     bad5.append('the file that is compared is not the file that is written')
                 leaf = it.leaf(g.name + '.int', 'isize')
                 O._unsat(q.pc + [leaf != 0], bad5, 'a writer is reached although the existing output has the same bytes')
+                # the buffer the existing file is compared with is the buffer that is written
+                maps = [c for c in q.calls if c.callee.split('::<')[0].endswith('::map') and c.seq < w.seq and c.seq > reads[-1].seq]
+                cmp_clo = c08.deref(maps[-1].args[1]) if maps else None
+                wr_clo = c08.deref(w.args[2]) if len(w.args) > 2 else None
+                if not (isinstance(cmp_clo, M.Adt) and isinstance(wr_clo, M.Adt)):
+                    bad5.append('the comparison / writer closures are not recognisable')
+                elif len(cmp_clo.fields) != len(wr_clo.fields) or any(c08.deref(x) is not c08.deref(y) for x, y in zip(cmp_clo.fields, wr_clo.fields)):
+                    bad5.append(f'the existing file is compared with {[canon(x)[:40] for x in cmp_clo.fields]} but {[canon(x)[:40] for x in wr_clo.fields]} is written')
         if nw == 0:
             bad4.append('no writer path (stale)')
         # the comparison closures
